@@ -39,7 +39,9 @@ def proc_case(draw, n, mle=True):
         # between the two rails of a qubit (as in C15)
         prog = dict(prog)
         if draw(st.booleans()):
-            prog["pad"] = draw(st.sampled_from([[1, 0], [0, 1], [1, 1], [2, 0]]))
+            prog["pad"] = draw(st.sampled_from([[1, 0], [0, 1], [1, 1], [2, 0], [1, 1], [1, 2]]))
+            if min(prog["pad"]) >= 1 and draw(st.booleans()):
+                prog["cross"] = True       # first and last mode heralded crosswise, with different photon numbers
         else:
             k = draw(st.integers(1, 2))
             prog["hpos"] = sorted(draw(st.lists(st.integers(0, 2 * n + k - 1), unique=True, min_size=k, max_size=k)))
@@ -164,6 +166,12 @@ def run_proc(case):
         import lightworks as lw
         W2 = qubits.make_unitary("haar", 2, case["target"][1] + 17)
         qubits.add_on_qubit(base, prog, 0, lw.Unitary(W2))
+        # the extra callback arguments change as well before the second run: the supplied list is extended in place,
+        # or (if none was supplied) the public attribute is assigned
+        extra.append(("arg", "added-before-the-second-run"))
+        for obj in (li, gf):
+            if obj.experiment_args is not extra:
+                obj.experiment_args = extra
         V2 = qubits.on_qubit(n, 0, W2) @ V
         ref2 = call("choi_from_unitary", tomography.choi_from_unitary, V2)
         choi2 = call("LI process (after extending the base circuit)", li.process)
